@@ -12,6 +12,7 @@ import (
 	"fmt"
 	"io"
 	"math"
+	"seata.apache.org/seata-go/pkg/datasource/sql/undo/parser"
 	"strings"
 	"time"
 
@@ -640,6 +641,54 @@ func Run(r *rep.Run) {
 							r.Violate(sigBase+"/value", "decoded value equals the phase-one value under the executors' equality", cs, d)
 						}
 					}
+				}
+			}
+		}
+	}
+
+	// 3c. several encoded logs alive at once: what one Encode call returned still decodes to its own log after further Encode
+	// calls (two branches in phase one at the same time hold their encoded logs side by side) - same length and different
+	// lengths, encoded in either order
+	for _, ser := range serializers {
+		ps, err := parser.GetCache().Load(ser)
+		if err != nil {
+			r.Violate("encode-alive/"+ser+"/no-parser", "what phase one writes, rollback can read", caseDesc{Serializer: ser}, err.Error())
+			continue
+		}
+		mk := func(xid string, branch uint64, val string) *undo.BranchUndoLog {
+			row := types.RowImage{Columns: []types.ColumnImage{idCol(1), {ColumnName: colName("VARCHAR", 1), ColumnType: types.JDBCTypeVarchar, Value: val}}}
+			return &undo.BranchUndoLog{Xid: xid, BranchID: branch, Logs: []undo.SQLUndoLog{{SQLType: types.SQLTypeUpdate, TableName: meta.TableName,
+				BeforeImage: mkImage(types.SQLTypeUpdate, []types.RowImage{row}), AfterImage: mkImage(types.SQLTypeUpdate, []types.RowImage{row})}}}
+		}
+		logs := []*undo.BranchUndoLog{mk("10.0.0.1:8091:1000", 100, "aaaa"), mk("10.0.0.2:8091:9000", 500, "bbbb"), mk("10.0.0.3:8091:77", 7, strings.Repeat("c", 300))}
+		for _, order := range [][]int{{0, 1, 2}, {2, 1, 0}, {1, 0, 2}} {
+			enc := make([][]byte, len(logs))
+			failed := false
+			for _, i := range order {
+				b, err := ps.Encode(logs[i])
+				if err != nil {
+					r.Violate("encode-alive/"+ser+"/encode-error", "no panic, no error", caseDesc{Serializer: ser}, err.Error())
+					failed = true
+					break
+				}
+				enc[i] = b
+			}
+			if failed {
+				continue
+			}
+			for i, b := range enc {
+				r.Eval(true)
+				r.Count("encode_alive_cases", 1)
+				dec, err := ps.Decode(b)
+				cs := caseDesc{Serializer: ser, Compress: "None", SQLType: "UPDATE", Rows: 1, Column: fmt.Sprintf("log %d of 3, encode order %v", i, order)}
+				if err != nil || dec == nil {
+					r.Violate("encode-alive/"+ser+"/decode-error", "what phase one writes, rollback can read", cs, fmt.Sprintf("the bytes returned for log %d no longer decode after the other logs were encoded: %v", i, err))
+					continue
+				}
+				if dec.Xid != logs[i].Xid || dec.BranchID != logs[i].BranchID || len(dec.Logs) != 1 ||
+					compareImage("before", logs[i].Logs[0].BeforeImage, dec.Logs[0].BeforeImage) != "" {
+					r.Violate("encode-alive/"+ser+"/other-log", "what phase one writes, rollback can read", cs,
+						fmt.Sprintf("the bytes returned for the log of %s/%d decode to the log of %s/%d after the other logs were encoded", logs[i].Xid, logs[i].BranchID, dec.Xid, dec.BranchID))
 				}
 			}
 		}
